@@ -66,6 +66,11 @@ func (a *multiClusterTokenReviewAuthenticator) AuthenticateToken(ctx context.Con
 	if err != nil {
 		return nil, false, err
 	}
+	if info.UpstreamCluster != nil && info.UpstreamCluster != cluster {
+		// the request has already been bound to an upstream cluster (it will be proxied there), but the host
+		// has been moved to another cluster since: that cluster's answer must not be used for this request
+		return nil, false, fmt.Errorf("host %q does not belong to cluster %q any more", host, info.UpstreamCluster.Cluster)
+	}
 
 	var tokenAuth authenticator.Token
 	if a.tokenFailureCacheTTL == 0 && a.tokenSuccessCacheTTL == 0 {
